@@ -1,3 +1,5 @@
+//go:build !skip_c17
+
 package main
 
 import (
